@@ -8,7 +8,7 @@ CFG = {
                           "RpmVerif.C04.accepted_count_bounded", "RpmVerif.C04.accepted_sizes_bounded", "RpmVerif.C04.getFileEntries_total",
                           "RpmVerif.C04.readside_total", "RpmVerif.C04.readerNew_total", "RpmVerif.C04.iterate_total", "RpmVerif.C04.keyIds_total"],
     "trivial_branches": [],
-    "rule": "every case runs the whole read side (Package::parse, PackageMetadata::parse, all 40 accessors, verify_digests, verify_signature with a "
+    "rule": "every case runs the whole read side (Package::parse, PackageMetadata::parse, all 40 accessors, the Display / Debug impls of Header, IndexEntry, IndexData, Lead and PackageMetadata on the parsed values (stage fmt, into a discarding sink), verify_digests, verify_signature with a "
             "rejecting verifier, signature_key_ids, files() iteration on uncompressed payloads) in a forked child with a panic hook, RLIMIT_AS = 3 GiB, "
             "a counting allocator flagging any single request above 64 MiB + 16·len, and a Debug-level logger installed. Inputs: boundary-value products "
             "of intro fields (entries × store size) and of one index entry (type 0..10 × offset −1/0/len−1/len/len+1/i32 extremes × count 0/1/len/len+1/2^31/2^32−1, "
